@@ -60,7 +60,19 @@ func runW3(s *core.Shard, next func(string) bool) {
 	}
 	// (b) extends cycles of length 1..4, within a file, across files, across directories
 	for length := 1; length <= 4; length++ {
-		for layout := 0; layout < 4; layout++ {
+		for layoutN := 0; layoutN < 8; layoutN++ {
+			// layouts 4..7: as 0..3 with one and the same service name in every file (where every
+			// member of the cycle has a file of its own)
+			layout, sameName := layoutN%4, layoutN >= 4
+			if sameName && (length < 2 || layout == 0 || layout == 3 && length != 2) {
+				continue
+			}
+			svc := func(i int) string {
+				if sameName {
+					return "web"
+				}
+				return fmt.Sprintf("s%d", i)
+			}
 			c := &ld.Case{Files: map[string]string{}, ComposeFiles: []string{"compose.yaml"}}
 			fileOf := func(i int) string {
 				switch layout {
@@ -92,22 +104,22 @@ func runW3(s *core.Shard, next func(string) bool) {
 				}
 				j := (i + 1) % length
 				tf := fileOf(j)
-				fmt.Fprintf(docs[f], "  s%d:\n    image: i%d\n", i, i)
+				fmt.Fprintf(docs[f], "  %s:\n    image: i%d\n", svc(i), i)
 				if tf == f {
 					if i%2 == 0 {
-						fmt.Fprintf(docs[f], "    extends: s%d\n", j)
+						fmt.Fprintf(docs[f], "    extends: %s\n", svc(j))
 					} else {
-						fmt.Fprintf(docs[f], "    extends: {service: s%d}\n", j)
+						fmt.Fprintf(docs[f], "    extends: {service: %s}\n", svc(j))
 					}
 				} else {
 					rel, _ := filepath.Rel(filepath.Dir(f), tf)
-					fmt.Fprintf(docs[f], "    extends: {file: %s, service: s%d}\n", rel, j)
+					fmt.Fprintf(docs[f], "    extends: {file: %s, service: %s}\n", rel, svc(j))
 				}
 			}
 			for f, b := range docs {
 				c.Files[f] = b.String()
 			}
-			one(fmt.Sprintf("extends-cycle/%d/%d", length, layout), c, expect{MustFail: true, Why: fmt.Sprintf("extends cycle of length %d (layout %d)", length, layout)})
+			one(fmt.Sprintf("extends-cycle/%d/%d", length, layoutN), c, expect{MustFail: true, Why: fmt.Sprintf("extends cycle of length %d (layout %d)", length, layout)})
 		}
 	}
 	// (c) include cycles of length 1..3; style 0: short / {path:} syntax, 1: long syntax with
